@@ -27,19 +27,19 @@ CHECKS = {
          "Seeded search over term descriptions and consumer histories (MoveNext/Current/Send/Result/quiesce, calls after exhaustion). Sampling, not exhaustive enumeration.", "Trusted: sim/refco, sim/layerr evalRef (structured-loop interpreter), Go runtime.", "DESIGN.md 4 C08"),
  "C09": ("exploration", SIM + ": seeded operation histories (MoveNext/Current/Send/Result) on the real generator vs a sequential reference model; history equality",
          "Seeded search over operation histories biased to the protocol boundaries on a family of generators; Result compared only once the model is done.", "Trusted: sim/refco as the executable model of the documented protocol.", "DESIGN.md 4 C09"),
- "C10": ("exploration", SIM + ": iterator steps interleaved with simulated mutator/producer steps vs Go's native range run as a coroutine; bounded-exhaustive strings plus seeded inputs",
+ "C10": ("exploration", SIM + ": iterator steps interleaved with simulated mutator/producer steps (set, delete, create, append, reslice, send, close) vs Go's native range run as a coroutine; spec-derived invariant for multi-entry maps; bounded-exhaustive strings plus seeded inputs; nil-channel blocking observed as a parked goroutine",
          "Iterator and mutator/producer are two simulated actors whose step order the simulator decides; maps by a spec-derived invariant self-checked against native range. The string/integer parts have no second actor (input enumeration, stated).", "Trusted: Go's range statement as specification.", "DESIGN.md 4 C10"),
  "C12": ("exploration", SIM + " with syntactic fault injection into the workload: one unsupported construct spliced into a supported program; oracle fail-stop (diagnostic) or history equality with the reference; negative controls must be accepted",
          "Fault space is syntactic (said plainly in DESIGN.md); each program is its own package so rejections do not mask each other.", TB_C, "DESIGN.md 4 C12"),
- "C13": ("exploration", SIM + ": bystander op histories (create closure / reassign callee or receiver / call) encoded in plain functions; history equality between source-built and generated package",
+ "C13": ("exploration", SIM + ": bystander op histories (create closure / reassign callee or receiver / call) encoded in plain functions; history equality between source-built and generated package; side-effect imports compared structurally at the acceptance gate",
          "Differential execution of co-located non-generator code with the closure-timing shapes file-wide passes endanger.", TB_C, "DESIGN.md 4 C13"),
- "C14": ("exploration", SIM + ": seeded thread scheduler pre-empting consumer threads at op boundaries and effect points (runtime terms and compiled programs); per-iterator projection vs solo run",
+ "C14": ("exploration", SIM + ": seeded thread scheduler pre-empting consumer threads at op boundaries and effect points (runtime terms and compiled programs); per-iterator projection vs solo run; consumer-interleaved sub-iterators of one generator vs the reference; plus a race-detector supplement on real goroutines (runtime monitoring, flagged)",
          "Seeded search over interleavings of k iterators on m simulated threads with pre-emption inside steps; self-relative oracle plus equality with the reference under the same choices. A supplement runs the same shared-value scenarios on truly parallel goroutines under the race detector (a race report or a per-iterator deviation is a violation too); that part is runtime monitoring, not seed-replayable, and flagged as such in the evidence.", "Trusted: sim/sched (baton passing, one runnable goroutine), sim/refco.", "DESIGN.md 4 C14"),
  "C15": ("fault_enumeration", SIM + " of tool-run histories over a directory tree with constructed crash-restart states (every file-write point of both stages), stale and conflicting directories; byte equality with a clean run",
          "Every crash point of every sampled layout is materialised (thorough; seeded subset in quick) and followed by a normal run; plus placement/repetition configurations.", "Trusted: crash-state construction (files in write order + torn prefix); the real file system.", "DESIGN.md 4 C15, 2.6"),
  "C16": ("fault_enumeration", SIM + " of go:generate runs of the real cogen binary over generated package layouts with stale temporary/output state; directory snapshots, build/test, idempotence",
          "Tool-run history per layout: snapshot, cogen, snapshot, build, type-check with tag, test, cogen, snapshot; fault variants: stale <dir>_tmp of a killed run, stale outputs of older sources.", "Trusted: directory snapshots (sha256), go build/test.", "DESIGN.md 4 C16"),
- "C17": ("exploration", SIM + " with an invariant monitor: stack depth sampled at effect points of simulated runs (runtime terms and compiled loops), n vs 10n ladder; delegation depth linearity",
+ "C17": ("exploration", SIM + " with an invariant monitor: stack depth sampled at effect points of simulated runs (runtime terms and compiled loops), n vs 10n ladder with the quiet stretch scaling with n; delegation depth linearity",
          "Invariant monitored during simulated runs with non-yielding stretches up to 10^5 (10^6 thorough) iterations; self-relative oracle. No interleaving involved (stated).", "Trusted: runtime.Callers as depth measure.", "DESIGN.md 4 C17"),
  "C18": ("fault_enumeration", SIM + " with fault injection: a panic armed at every effect index of every sampled run (failpoint in vrt.E), same interleaving replayed; runtime terms and compiled programs",
          "Fault enumeration over effect indices; self-relative oracle (prefix identical, panic surfaces from the executing call with the armed value, silence afterwards, other iterators unaffected) plus the reference coroutine's history.", "Trusted: vrt.E failpoint placement; sim/refco re-raising panics in the resumer.", "DESIGN.md 4 C18"),
